@@ -5,3 +5,4 @@ import Model.Helpers
 import Model.Fn
 import Model.Parsers
 import Model.World
+import Model.Merge
